@@ -471,6 +471,186 @@ VOP(rt_net)
 	Out("rtnd deliv=" + std::to_string(deliv) + " left=" + std::to_string(q.size()) + " proc=" + (p.empty() ? "-" : p));
 }
 
+// rt_netm s=<e.e.e> ts=<d.d.d> tz=<z> links=<..> sched=fifo|lifo|rnd seed=<n> mode=relay|nextcheck ilv=0|1 tick=0|1
+// SEVERAL distinct events in one network, real code at every node (as rt_net), and the receivers' "ignore old messages"
+// test live: every node keeps its own Endpoint::remote_log_position per sending endpoint across deliveries (rt_net resets
+// them: one event cannot meet its own time stamp twice on one connection).  Event k originates at endpoint s[k] when the
+// virtual clock reads base+ts[k] (equal values = two events relayed within one clock tick; a smaller value = the clock was
+// stepped back); every relay stamps the message with the clock of that moment (the real SyncRelayMessage does), tick=1
+// advances the clock by one second per delivery.  ilv=1: all events originate first, then deliveries are interleaved;
+// ilv=0: each event runs to quiescence before the next originates.  A connection is a FIFO byte stream: the schedule picks
+// a CONNECTION that has something in flight (oldest message / newest message / seeded random) and delivers that
+// connection's oldest message.  Output: "rtm done" (compared), then for the oracle "rtmd left= log=<from>-<to>-<ev>-<ts
+// offset>-<handler ran: 0|1, 2 = not observable in mode=nextcheck>..." and per event "rtme ev= s= deliv= proc=".
+VOP(rt_netm)
+{
+	std::vector<int> ss = IdList(a.str("s", "-"));
+	std::vector<int> tso = IdList(a.str("ts", "-"));
+	std::string tz = a.str("tz", "-");
+	std::string mode = a.str("mode", "relay");
+	std::string sched = a.str("sched", "fifo");
+	bool ilv = a.num("ilv", 1) != 0;
+	bool tick = a.num("tick", 0) != 0 && ilv;   // ticking while events still originate at fixed offsets would step the clock back
+	unsigned long rng = (unsigned long)a.num("seed", 1) * 2654435761UL + 12345UL;
+	if (tz == "-" || ss.empty() || ss.size() != tso.size()) throw std::runtime_error("rt_netm needs tz, s and ts of equal length");
+	size_t nev = ss.size();
+
+	std::map<int, std::set<int>> conn;
+	std::string links = a.str("links", "-");
+	if (links != "-" && !links.empty()) {
+		for (auto& p : Split(links, '.')) {
+			auto ab = Split(p, '-');
+			if (ab.size() != 2) throw std::runtime_error("bad link");
+			int x = std::stoi(ab[0]), y = std::stoi(ab[1]);
+			if (x == y) continue;
+			conn[x].insert(y); conn[y].insert(x);
+		}
+	}
+
+	ConfigObject::Ptr secobj;
+	Host::Ptr host;
+	if (l_ZoneGlobal[std::stoi(tz)]) secobj = CheckCommand::GetByName("rh" + tz);
+	else { host = Host::GetByName("rh" + tz); secobj = host; }
+	if (!secobj) throw std::runtime_error("unknown target zone");
+	if (mode == "nextcheck" && !host) throw std::runtime_error("mode=nextcheck needs a host target");
+
+	struct Msg { int from; int to; int ev; Dictionary::Ptr json; };
+	std::deque<Msg> q;
+	std::vector<std::vector<int>> proc(nev);
+	std::vector<int> deliv(nev, 0);
+	std::ostringstream dlog;
+	bool firstLog = true;
+	size_t neps = 0;
+	for (auto& kv : l_ZoneEps) neps += kv.second.size();
+	double base = Utility::GetTime();
+	double clock = base;
+	double value = base + 600 + (double)(CaseId() % 97);
+	std::map<std::pair<int, int>, double> rlp;   // (node, sending endpoint) -> that node's remote_log_position for it
+
+	std::map<int, JsonRpcConnection::Ptr> newest;
+	auto setup = [&](int me) {
+		Endpoint::Ptr local = Endpoint::GetByName(EpName(me));
+		if (!local) throw std::runtime_error("unknown endpoint");
+		l_Listener->SetIdentity(EpName(me));
+		l_Listener->m_LocalEndpoint = local;
+		ClearClients();
+		newest.clear();
+		for (int e : conn[me]) {
+			Endpoint::Ptr ep = Endpoint::GetByName(EpName(e));
+			if (!ep) throw std::runtime_error("unknown endpoint in links");
+			JsonRpcConnection::Ptr cl = MakeClient(EpName(e), true);
+			newest[e] = cl;
+			std::unique_lock<std::mutex> lock(ep->m_ClientsLock);
+			ep->m_Clients.insert(cl);
+		}
+		for (const Endpoint::Ptr& ep : ConfigType::GetObjectsByType<Endpoint>()) {
+			ep->SetLocalLogPosition(0);
+			auto it = rlp.find({ me, EpId(ep->GetName()) });
+			ep->SetRemoteLogPosition(it == rlp.end() ? 0 : it->second);
+		}
+	};
+	auto collect = [&](int me, int ev) {
+		l_Listener->m_RelayQueue.Join();
+		l_Io.restart();
+		l_Io.poll();
+		for (auto& kv : newest)
+			for (const String& js : kv.second->m_OutgoingMessagesQueue)
+				q.push_back(Msg{ me, kv.first, ev, JsonDecode(js) });
+		// this node's log positions survive until its next turn
+		for (const Endpoint::Ptr& ep : ConfigType::GetObjectsByType<Endpoint>()) {
+			double p = ep->GetRemoteLogPosition();
+			if (p != 0) rlp[{ me, EpId(ep->GetName()) }] = p;
+		}
+		ClearClients();
+		newest.clear();
+	};
+	auto originate = [&](size_t k) {
+		clock = base + tso[k];
+		Utility::VerifSetTime(clock);
+		setup(ss[k]);
+		if (mode == "nextcheck") {
+			host->SetNextCheck(0, true);
+			host->SetNextCheck(value + (double)k, false, Empty);
+		} else {
+			Dictionary::Ptr params = new Dictionary({ { "case", (double)CaseId() }, { "ev", (double)k } });
+			Dictionary::Ptr message = new Dictionary({ { "jsonrpc", "2.0" }, { "method", "verif::Relay" }, { "params", params } });
+			l_Listener->SyncRelayMessage(nullptr, secobj, message, false);
+		}
+		collect(ss[k], (int)k);
+		proc[k].push_back(ss[k]);
+	};
+	size_t total = 0, guard = nev * (4 * neps + 16);
+	auto drain = [&]() {
+		while (!q.empty() && total < guard) {
+			size_t pick = 0;
+			if (sched == "lifo") pick = q.size() - 1;
+			else if (sched == "rnd") { rng = rng * 6364136223846793005UL + 1442695040888963407UL; pick = (size_t)((rng >> 33) % q.size()); }
+			// the oldest message of the picked message's connection
+			size_t idx = pick;
+			for (size_t i = 0; i < pick; i++)
+				if (q[i].from == q[pick].from && q[i].to == q[pick].to) { idx = i; break; }
+			Msg m = q[idx];
+			q.erase(q.begin() + idx);
+			total++;
+			deliv[m.ev]++;
+			if (tick) { clock += 1; Utility::VerifSetTime(clock); }
+			setup(m.to);
+			JsonRpcConnection::Ptr client;
+			auto it = newest.find(m.from);
+			client = (it != newest.end()) ? it->second : MakeClient(EpName(m.from), true);
+			bool processed = false;
+			int ran = 2;
+			if (mode == "nextcheck") {
+				host->SetNextCheck(0, true);
+				client->MessageHandler(m.json);
+				l_Listener->m_RelayQueue.Join();
+				processed = (host->GetNextCheck() == value + (double)m.ev);
+			} else {
+				l_HandlerRan = false; l_HandlerAccepted = false; l_HandlerAccess = true;
+				l_HandlerSecobj = secobj; l_HandlerLog = false; l_SeenFromZone = "-";
+				client->MessageHandler(m.json);
+				processed = l_HandlerAccepted;
+				ran = l_HandlerRan ? 1 : 0;
+				l_HandlerAccess = false; l_HandlerSecobj = nullptr;
+			}
+			double mts = m.json->Contains("ts") ? (double)m.json->Get("ts") : base;
+			dlog << (firstLog ? "" : ".") << m.from << "-" << m.to << "-" << m.ev << "-" << (long)(mts - base) << "-" << ran;
+			firstLog = false;
+			collect(m.to, m.ev);
+			if (processed) proc[m.ev].push_back(m.to);
+		}
+	};
+
+	bool wasActive = l_Listener->IsActive();
+	try {
+		if (mode == "nextcheck") l_Listener->SetActive(true, true);
+		for (size_t k = 0; k < nev; k++) {
+			originate(k);
+			if (!ilv) drain();
+		}
+		drain();
+	} catch (...) {
+		l_HandlerAccess = false; l_HandlerSecobj = nullptr;
+		l_Listener->m_RelayQueue.Join();
+		if (mode == "nextcheck") l_Listener->SetActive(wasActive, true);
+		ClearClients();
+		Utility::VerifSetTime(base);
+		throw;
+	}
+	l_Listener->m_RelayQueue.Join();
+	if (mode == "nextcheck") l_Listener->SetActive(wasActive, true);
+	for (const Endpoint::Ptr& ep : ConfigType::GetObjectsByType<Endpoint>()) ep->SetRemoteLogPosition(0);
+	Utility::VerifSetTime(base);
+
+	Out("rtm done");
+	Out("rtmd left=" + std::to_string(q.size()) + " log=" + (firstLog ? std::string("-") : dlog.str()));
+	for (size_t k = 0; k < nev; k++) {
+		std::string p;
+		for (int e : proc[k]) { if (!p.empty()) p += "."; p += std::to_string(e); }
+		Out("rtme ev=" + std::to_string(k) + " s=" + std::to_string(ss[k]) + " deliv=" + std::to_string(deliv[k]) + " proc=" + (p.empty() ? "-" : p));
+	}
+}
+
 // rt_reload order=<z.z.z>: run Zone::OnAllConfigLoaded again for every zone in the given activation order
 // (top-down, bottom-up, random), starting from zones that have not resolved anything yet, then report
 // GetParent() and GetAllParentsRaw() of every zone.  Later rt_step ops route over the chains built here.
